@@ -211,6 +211,7 @@ Qed.
 Fixpoint script_bytes (s : list chunk) : bytes :=
   match s with
   | Chunk bs :: t => bs ++ script_bytes t
+  | ChunkErr bs :: _ => bs          (* bytes that came together with the error: the last ones *)
   | _ => []
   end.
 
@@ -302,7 +303,7 @@ Theorem reader_from_account cancel : forall script left sent,
 Proof.
   induction script as [|c script IH]; intros left sent.
   - cbn. constructor; cbn; try discriminate; [constructor|]. rewrite app_nil_r. reflexivity.
-  - destruct c as [bs|].
+  - destruct c as [bs| |bs].
     + cbn [reader_from script_bytes].
       pose proof (inner_account (Nat.eqb (length bs) buf_size) cancel (length (left ++ bs)) (left ++ bs) sent (le_n _)) as A.
       destruct (inner (length (left ++ bs)) (left ++ bs) (Nat.eqb (length bs) buf_size) sent cancel) as [o s|o s r|o|o|].
@@ -332,6 +333,17 @@ Proof.
       * contradiction.
       * contradiction.
     + cbn. constructor; cbn; try discriminate; [constructor|]. rewrite app_nil_r. reflexivity.
+    + cbn [reader_from script_bytes].
+      pose proof (inner_account (Nat.eqb (length bs) buf_size) cancel (length (left ++ bs)) (left ++ bs) sent (le_n _)) as A.
+      destruct (inner (length (left ++ bs)) (left ++ bs) (Nat.eqb (length bs) buf_size) sent cancel) as [o s|o s r|o|o|].
+      * destruct A as (R & N & _). constructor; cbn [rd_why rd_out rd_left]; try discriminate; auto.
+        rewrite app_nil_r. exact R.
+      * destruct A as (R & N & _ & _ & _). constructor; cbn [rd_why rd_out rd_left]; try discriminate; auto.
+      * destruct A as ((rest & R) & N & _).
+        constructor; cbn [rd_why rd_out rd_left]; try discriminate; auto.
+        exists rest. exact R.
+      * contradiction.
+      * contradiction.
 Qed.
 
 Corollary reader_account script cancel : reader_ok (script_bytes script) (reader script cancel).
@@ -371,16 +383,30 @@ Theorem reader_cancel_bound k : forall script left sent, (sent <= k)%nat ->
   (sent + length (rd_out (reader_from script left sent (Some k))) <= k)%nat.
 Proof.
   induction script as [|c script IH]; intros left sent Hs; [cbn; lia|].
-  destruct c as [bs|]; [|cbn; lia].
+  destruct c as [bs| |bs]; [|cbn; lia|].
+  - cbn [reader_from].
+    pose proof (inner_cancel_bound k (Nat.eqb (length bs) buf_size) (length (left ++ bs)) (left ++ bs) sent Hs) as B.
+    destruct (inner (length (left ++ bs)) (left ++ bs) (Nat.eqb (length bs) buf_size) sent (Some k)) as [o s|o s r|o|o|];
+      cbn [rd_out]; try rewrite app_length.
+    + destruct B as [B1 B2]. specialize (IH [] s B1). lia.
+    + destruct B as [B1 B2]. specialize (IH r s B1). lia.
+    + lia.
+    + cbn [length]. lia.
+    + cbn [length]. lia.
+  - cbn [reader_from].
+    pose proof (inner_cancel_bound k (Nat.eqb (length bs) buf_size) (length (left ++ bs)) (left ++ bs) sent Hs) as B.
+    destruct (inner (length (left ++ bs)) (left ++ bs) (Nat.eqb (length bs) buf_size) sent (Some k)) as [o s|o s r|o|o|];
+      cbn [rd_out]; try (destruct B as [B1 B2]); try lia; cbn [length]; lia.
+Qed.
+
+(* bytes that arrive together with the error are decoded like any other read's, then the reader stops with the error:
+   a script ending in ChunkErr bs behaves as one ending in Chunk bs followed by the bare error *)
+Lemma reader_data_with_error bs rest left sent cancel :
+  reader_from (ChunkErr bs :: rest) left sent cancel = reader_from [Chunk bs; ReadErr] left sent cancel.
+Proof.
   cbn [reader_from].
-  pose proof (inner_cancel_bound k (Nat.eqb (length bs) buf_size) (length (left ++ bs)) (left ++ bs) sent Hs) as B.
-  destruct (inner (length (left ++ bs)) (left ++ bs) (Nat.eqb (length bs) buf_size) sent (Some k)) as [o s|o s r|o|o|];
-    cbn [rd_out]; try rewrite app_length.
-  - destruct B as [B1 B2]. specialize (IH [] s B1). lia.
-  - destruct B as [B1 B2]. specialize (IH r s B1). lia.
-  - lia.
-  - cbn [length]. lia.
-  - cbn [length]. lia.
+  destruct (inner (length (left ++ bs)) (left ++ bs) (Nat.eqb (length bs) buf_size) sent cancel); cbn;
+    rewrite ?app_nil_r; reflexivity.
 Qed.
 
 (* a read error ends the reader at once, whatever follows in the script *)
